@@ -511,7 +511,8 @@ def run(ctx):
     evaluate(ctx, corpus, judge)
     evaluate(ctx, list(G.arity_histories()) + list(G.extra_histories()) + list(G.copy_histories())
              + list(G.empty_flux_histories()) + list(G.degenerate_histories()) + list(G.shadow_histories())
-             + list(G.scan_histories()) + list(G.alias_histories()) + list(G.readout_data_histories()), judge)
+             + list(G.scan_histories()) + list(G.alias_histories()) + list(G.readout_data_histories())
+             + list(G.readout_order_histories()), judge)
     ctx.exhaustive = True
     thorough = ctx.tier == "thorough"
     cur = []
